@@ -285,3 +285,15 @@ PROPS["C26"] = dict(
     level_text="Sampled CMaps, boundary-directed and partly exhaustive probing of each; the model is exact on every probed code.",
     level_note="Trusted base: the model interpreter (candidates / in_codespace / dst_plus) in harness/src/wl/c26.rs. The writer's font-driven ToUnicode generation is exercised by C13, not here.",
 )
+
+PROPS["C30"] = dict(
+    title="Page resource names chosen by the user cannot break the page",
+    level="exploration",
+    technique="round-trip monitor with two observers: for a generated name and every name-accepting entry point the page is authored through the public API and written; an independent reader (pyref) validates the file, decodes the resource dictionary keys and the content-stream operands and resolves the name to an object of the intended kind; the library's own reader and content parser are judged the same way",
+    stages=[rust(), py("pyref.checks.c30")],
+    rule="names over classes {plain, each delimiter / white-space / '#', control characters incl. NUL CR LF, Latin-1, BMP, astral, empty, 127 and 300 bytes, random mixtures} x entry points {add_image+draw_image, two images whose names collide under naive escaping, add_form_xobject, add_color_space + named calibrated colour, add_shading + paint_shading, add_font_from_bytes + Font::Custom} x sampled writer configurations. An API that rejects the name with an error is accepted. Non-trivial: the name was accepted and a file was written; distinct by case",
+    assumptions=["a name is compared as its UTF-8 bytes after #xx decoding", "rejecting a name with an error does not break the page and is accepted"],
+    floors={"quick": {"evaluations": 1500, "distinct": 600, "counters": {"independent_reader_ok": 300}}, "thorough": {"evaluations": 90000, "distinct": 40000}},
+    level_text="Sampled names, all entry points; each written file is judged by an independent parser.",
+    level_note="Trusted base: pyref/pdf.py and pyref/validate.py. Pattern names and form-field export states are not driven (patterns have no public drawing call that takes a user name).",
+)
